@@ -537,6 +537,31 @@ pub fn c17_pair(old: &[u8], new: &[u8]) -> Result<(bool, u64, u64, u64), String>
                 diffs += 1;
             }
         }
+        // caller-side tokens with zero-width tokens among them (fields between separators):
+        // one byte per token, an empty token before every second one and at the end
+        if old.len() + new.len() <= 8 {
+            fn fields(s: &[u8]) -> Vec<&[u8]> {
+                let mut rv = vec![];
+                for i in 0..s.len() {
+                    if i % 2 == 0 {
+                        rv.push(&s[i..i]);
+                    }
+                    rv.push(&s[i..i + 1]);
+                }
+                rv.push(&s[s.len()..]);
+                rv
+            }
+            let (fo, fnw) = (fields(old), fields(new));
+            let r = subject(|| {
+                let d = TextDiff::configure().algorithm(alg).diff_slices(&fo, &fnw);
+                c17_diff(&d, old, new)
+            })
+            .map_err(|p| format!("[u8] caller tokens with empty tokens {}: panic: {}", alg_name(alg), p))?
+            .map_err(|e| format!("[u8] caller tokens with empty tokens {}: {}", alg_name(alg), e))?;
+            total += r.0;
+            fp.add(r.1);
+            diffs += 1;
+        }
         diffs += c17_helpers::<[u8]>(alg, old, new, "[u8]")?;
         if let Some((a, b)) = as_str {
             diffs += c17_helpers::<str>(alg, a, b, "str")?;
